@@ -15,3 +15,14 @@ def kmer_floor(F, rep):
 def run_kmer_lemmas(F, rep, which):
     for ty in kmer_type_names(F):
         rep.run(lemmas.kmer_lemmas, F, rep, ty, which=which)
+
+
+def run_store_kmer_lemmas(F, rep, rule):
+    """the k-mer reads every graph / filter / scanner operation relies on: `get_kmer` on the packed store (DnaString block walk: every
+    offset for the k-mer types wider than one storage word) and on views of it (forward and reverse-complemented, offsets that straddle
+    two and three words), incl. the terminal accessors.  Run under every property whose statement is observed through those reads."""
+    from .. import dt_seq
+    rep.run(lemmas.dnastring_lemmas, F, rep, which={"get_kmer"},
+            kmer_positions=(lambda K: range(0, 70)) if rep.tier == "thorough" else (lambda K: range(0, 70) if K > 32 else (0, 1, 17, 31, 32, 33, 63)))
+    rep.run(lemmas.slice_getkmer_lemmas, F, rep, rule, quick=(rep.tier != "thorough"))
+    rep.run(dt_seq.slice_view_tables, F, rep, rule)
